@@ -76,9 +76,9 @@ int main(int argc, char** argv)
         Program P; std::string err;
         if (!P.parse(readFile(pos[1]), err)) { printf("BADFILE %s\n", err.c_str()); return 65; }
         if (opt.count("property")) P.property = opt["property"];
-        if (P.property == "C18") {
+        if (P.property == "C18" || P.property == "C19") {
             Failure fl;
-            int rc = replayMemoryManager(readFile(pos[1]), fl);
+            int rc = P.property == "C18" ? replayMemoryManager(readFile(pos[1]), fl) : replayCodec(readFile(pos[1]), fl);
             if (rc) { printf("FAIL %s :: %s\n", fl.tag.c_str(), fl.msg.c_str()); return 2; }
             printf("OK\n");
             return 0;
@@ -122,6 +122,45 @@ int main(int argc, char** argv)
         long done = 0, nontriv = 0, failed = 0, steps = 0;
         const double t0 = now();
         std::string failTag, failMsg;
+        if (prop == "C18" || prop == "C19") {
+            // standalone checks (no program interpreter)
+            const unsigned workers = opt.count("workers") ? unsigned(atoi(opt["workers"].c_str())) : 1;
+            Failure fl; std::string desc;
+            long distinct = 0;
+            if (prop == "C19") {
+                int rc = runCodecCampaign(tier, unsigned(worker), workers, seed, total, fl, desc);
+                done = total.get("int_in_range") + total.get("int_out_of_range") + total.get("float_patterns");
+                nontriv = distinct = total.get("nontrivial_values");
+                samples.push_back("int 1073741823  (largest terminal integer: handle = value | msb, decoded by sign extension)");
+                samples.push_back("int 1073741824  (just outside: must raise VALUE_OVERFLOW)");
+                samples.push_back("float 1065353217  (0x3f800001 = 1.00000012: decodes to 1.0, the float with the last mantissa bit cleared)");
+                if (rc) { failed = 1; failTag = fl.tag; failMsg = fl.msg; writeFile(out + "/fail-w" + std::to_string(worker) + ".mvh", "mvh 1\nproperty C19\n" + desc); }
+            } else {
+                for (long i = 0; i < cases; i++) {
+                    if (budget > 0 && now() - t0 > budget) break;
+                    Xo R(propSeed(prop, seed, worker, uint64_t(i)));
+                    Labels L; desc.clear();
+                    writeFile(cur, "mvh 1\nproperty C18\n# case " + std::to_string(i) + " (regenerate with: mvh mmcase --seed S --worker W --index I)\n");
+                    int rc = runMemoryManagerCase(R, tier, L, fl, desc);
+                    done++;
+                    for (auto& kv : L.c) { total.add(kv.first, kv.second); total.add("cases_with." + kv.first); }
+                    if (rc) { failed = 1; failTag = fl.tag; failMsg = fl.msg; writeFile(out + "/fail-w" + std::to_string(worker) + ".mvh", "mvh 1\nproperty C18\n" + desc); break; }
+                    if (L.has("coalesce") && L.has("split_remainder_reused")) { nontriv++; distinct++; if (samples.size() < 2) samples.push_back(desc.substr(0, 1500)); }
+                }
+                unlink(cur.c_str());
+            }
+            if (failed) printf("FAIL %s :: %s\n", failTag.c_str(), failMsg.c_str());
+            std::ostringstream js;
+            js << "{\"worker\":" << worker << ",\"cases\":" << done << ",\"steps\":0,\"nontrivial\":" << nontriv
+               << ",\"distinct_nontrivial\":" << distinct << ",\"failed\":" << failed << ",\"wall_s\":" << (now() - t0) << ",\"labels\":{";
+            bool first = true;
+            for (auto& kv : total.c) { js << (first ? "" : ",") << "\"" << jsonEscape(kv.first) << "\":" << kv.second; first = false; }
+            js << "},\"hashes\":[],\"count_distinct\":" << distinct << ",\"samples\":[";
+            for (size_t i = 0; i < samples.size(); i++) js << (i ? "," : "") << "\"" << jsonEscape(samples[i]) << "\"";
+            js << "],\"fail_tag\":\"" << jsonEscape(failTag) << "\",\"fail_msg\":\"" << jsonEscape(failMsg) << "\"}\n";
+            writeFile(out + "/w" + std::to_string(worker) + ".json", js.str());
+            return failed ? 2 : 0;
+        }
         for (long i = 0; i < cases; i++) {
             if (budget > 0 && now() - t0 > budget) break;
             Xo R(propSeed(prop, seed, worker, uint64_t(i)));
